@@ -35,6 +35,8 @@ type vhEnv struct {
 	fetchReq  chan tmelink.ProposedHeaderFetchRequest
 	initialHeight uint64
 	panicsAreViolations bool
+	voteAsked, voteAnswered bool
+	voteAnswer AddVoteResult
 }
 
 // vhNewEnv builds a kernel at genesis (voting at initialHeight round 0, no committing view).
